@@ -22,6 +22,8 @@ class Profile:
         self.heralded = False
         self.aliases = True
         self.index_map = None        # list of physical indices to place logical qubits on
+        self.annotations = False     # random DETECTOR / OBSERVABLE_INCLUDE (not necessarily deterministic)
+        self.obs_pauli = False
         self.__dict__.update(kw)
 
 
@@ -77,6 +79,8 @@ def gen_block(rng, gates, prof, n, length, meas_avail, depth, sweep_count):
     kinds += ['mpad']
     if prof.noise:
         kinds += ['noise'] * 4
+    if prof.annotations:
+        kinds += ['det'] * 3 + ['obs']
     for _ in range(length):
         k = rng.choice(kinds)
         avail = meas_avail + added
@@ -201,6 +205,21 @@ def gen_block(rng, gates, prof, n, length, meas_avail, depth, sweep_count):
             added += badd * reps
         elif k == 'noise':
             out.append(gen_noise(rng, prof, n))
+        elif k in ('det', 'obs'):
+            if avail == 0:
+                continue
+            cnt = rng.choice([1, 2, 2, 3, 4])
+            far = rng.random() < 0.2
+            ts = [T('rec', rng.randint(1, avail if far else min(avail, 6))) for _ in range(cnt)]
+            if rng.random() < 0.15:
+                ts.append(T('rec', ts[0].val))          # duplicate lookback cancels
+            if k == 'det':
+                args = [float(rng.randrange(4)) for _ in range(rng.choice([0, 0, 2, 3]))]
+                out.append(Instr('DETECTOR', args, ts))
+            else:
+                if prof.obs_pauli and rng.random() < 0.3:
+                    ts.append(T('pauli', Q(), pauli=rng.choice('XYZ')))
+                out.append(Instr('OBSERVABLE_INCLUDE', [float(rng.choice([0, 0, 1, 2, 5, 9]))], ts))
     return out, added
 
 
